@@ -9,6 +9,15 @@ import (
 
 func init() { register("g03", genG03) }
 
+func has(cs []string, s string) bool {
+	for _, c := range cs {
+		if c == s {
+			return true
+		}
+	}
+	return false
+}
+
 var g03TimeUnits = map[string]int64{
 	"time.Nanosecond": 1, "time.Microsecond": 1e3, "time.Millisecond": 1e6,
 	"time.Second": 1e9, "time.Minute": 60e9, "time.Hour": 3600e9,
@@ -46,6 +55,26 @@ func g03EvalInt(f *File, e ast.Expr) (int64, error) {
 		}
 	}
 	return 0, fmt.Errorf("%s: cannot evaluate %q as an integer constant", f.Path, f.Src(e))
+}
+
+// g03Rename renders an expression with identifiers replaced according to ren.
+func g03Rename(f *File, n ast.Node, ren map[string]string) string {
+	var restore []func()
+	ast.Inspect(n, func(x ast.Node) bool {
+		if id, ok := x.(*ast.Ident); ok {
+			if to, ok := ren[id.Name]; ok && to != id.Name {
+				old := id.Name
+				id.Name = to
+				restore = append(restore, func() { id.Name = old })
+			}
+		}
+		return true
+	})
+	out := f.Src(n)
+	for _, r := range restore {
+		r()
+	}
+	return out
 }
 
 type g03Call struct {
@@ -200,15 +229,40 @@ func genG03(repo string, w *Out) error {
 	if err != nil {
 		return err
 	}
-	dcalls := cp.CallsIn(db.Body)
-	has := func(cs []string, s string) bool {
-		for _, c := range cs {
-			if c == s {
-				return true
+	// locals and parameters are renamed to canonical names first (a renamed local is not a change of shape)
+	dren := map[string]string{}
+	if ps := db.Type.Params.List; len(ps) == 2 && len(ps[0].Names) == 1 && len(ps[1].Names) == 1 {
+		dren[ps[0].Names[0].Name] = "w"
+		dren[ps[1].Names[0].Name] = "r"
+	}
+	ast.Inspect(db.Body, func(x ast.Node) bool {
+		as, ok := x.(*ast.AssignStmt)
+		if !ok || as.Tok != token.DEFINE || len(as.Rhs) != 1 {
+			return true
+		}
+		ce, ok := as.Rhs[0].(*ast.CallExpr)
+		if !ok {
+			return true
+		}
+		if sel, ok := ce.Fun.(*ast.SelectorExpr); ok {
+			if id, ok := as.Lhs[0].(*ast.Ident); ok {
+				switch sel.Sel.Name {
+				case "Buffered":
+					dren[id.Name] = "n"
+				case "Peek":
+					dren[id.Name] = "rbuf"
+				}
 			}
 		}
-		return false
-	}
+		return true
+	})
+	var dcalls []string
+	ast.Inspect(db.Body, func(x ast.Node) bool {
+		if ce, ok := x.(*ast.CallExpr); ok {
+			dcalls = append(dcalls, g03Rename(cp, ce, dren))
+		}
+		return true
+	})
 	switch {
 	case has(dcalls, "r.Buffered()") && has(dcalls, "r.Peek(n)") && has(dcalls, "w.Write(rbuf)") &&
 		!has(dcalls, "r.Discard(n)") && len(dcalls) == 3:
